@@ -2,6 +2,7 @@
 import json
 import os
 import random
+import zlib
 import subprocess
 from vlib import common, prog
 
@@ -18,6 +19,7 @@ ARGS = {
     'empty': "''", 'json-obj': '%{a: 1}', 'json-arr': '%[1,2,3]', 'block': '{ out x }', 'unicode': "'é世\U0001F600'",
     'range': '[1..3]', 'path': '/nonexistent/dir/file', 'var-undef': '$undefinedvar_xyz', 'equals': 'a=b', 'slash-idx': '/9/9',
     # row / column / key selectors of the table indexer
+    'frac-exp': '5e-1',
     'row0': '*0', 'row2': '*2', 'rowbig': '*99999999999', 'rowmax': '*9223372036854775807', 'rowover': '*99999999999999999999',
     'oldrow': '1:', 'oldrowbig': '99999999999:', 'col0': ':0', 'colbig': ':99', 'colletter': '*c', 'colZ': '*Z', 'colname': 'b', 'minus1': '-1',
 }
@@ -89,8 +91,32 @@ TEMPLATES = [
 ]
 
 
+FLAG_VALS = ['negative', 'zero', 'frac-exp', 'word', 'huge']
+
+
+def declared_flags(builtins):
+    """flags that the Go source of a builtin's package mentions as string literals (an over-approximation of its flag table)"""
+    import glob
+    import re
+    pairs = set()
+    for f in glob.glob(os.path.join(common.REPO, 'builtins', '**', '*.go'), recursive=True):
+        if f.endswith('_test.go'):
+            continue
+        names = set(re.findall(r'lang\.Define(?:Function|Method)\(\s*"([^"]+)"', open(f, errors='replace').read())) & set(builtins)
+        if not names:
+            continue
+        flags = set()
+        for g in glob.glob(os.path.join(os.path.dirname(f), '*.go')):
+            if not g.endswith('_test.go'):
+                flags |= set(re.findall(r'"(--?[a-zA-Z][a-zA-Z0-9-]*)"', open(g, errors='replace').read()))
+        for n in names:
+            for fl in flags:
+                pairs.add((n, fl))
+    return sorted(pairs)
+
+
 def render(c):
-    a = ' '.join(ARGS[x] for x in c['args'])
+    a = ' '.join(ARGS.get(x, x) for x in c['args'])
     cmd = '%s %s' % (c['cmd'], a)
     cmd += {'[': ' ]', '![': ' ]', '[[': ' ]]'}.get(c['cmd'], '')
     s = STDIN[c['stdin']]
@@ -102,7 +128,8 @@ def run(ck, replay=None):
     ck.cov['rule'] = ('Robust.tla enumerates (builtin from the real registry minus an explicit deny-list of interactive/process-killing/network builtins) x '
                       '(0, 1 or - for structured builtins - 2 arguments of 29 hostile shapes) x (13 stdin shapes), and the index family: ([, ![, [[) x (one selector or '
                       'every ordered pair of 19 row / column / key selectors) x (7 tabular stdin shapes: csv, ragged csv, empty csv, generic, jsonl, malformed jsonl, jsonl with an empty row), run completely in '
-                      'both tiers; a seeded sample (quick) or all rows (thorough) of the rest plus 49 hand-written error-path programs (named-pipe misuse with the real 2 s timers, malformed signatures, bad '
+                      'both tiers; the flag family: every flag that the Go source of a builtin\'s package declares, followed by a hostile value (negative, zero, 5e-1, word, huge) in four '
+                      'argument forms (alone, before / after a number, before a block; quick tier: the values negative and 5e-1, thorough tier: all); a seeded sample (quick) or all rows (thorough) of the rest plus 49 hand-written error-path programs (named-pipe misuse with the real 2 s timers, malformed signatures, bad '
                       'casts, bad block names, out-of-range indexes, unbalanced quotes, bad flag tables) are executed in child processes with a '
                       'per-program deadline; a seeded subset also runs through the real `murex -c` binary.  Outcome rule from the specification: '
                       'ok | error (exit != 0); `panic caught`, `Murex has crashed`, death of the process or a missed deadline are violations.  '
@@ -116,11 +143,15 @@ def run(ck, replay=None):
     if len(builtins) < 80:
         raise common.Infra('only %d builtins found' % len(builtins))
     two = [b for b in TWO if b in builtins]
+    flagpairs = declared_flags(builtins)
+    ck.cov['declared_flag_pairs'] = len(flagpairs)
     def tset(xs):
         return '{' + ', '.join(json.dumps(x) for x in xs) + '}'
     cfg = ('CONSTANTS\n  Builtins = %s\n  ArgShapes = %s\n  StdinShapes = %s\n  TwoArgBuiltins = %s\n  IndexCmds = %s\n  IndexShapes = %s\n'
-           '  TableStdin = %s\n') % (tset(builtins), tset(sorted(ARGS)), tset(sorted(STDIN)), tset(two), tset([c for c in INDEX_CMDS if c in builtins]),
-                                     tset(INDEX_SHAPES), tset(TABLE_STDIN))
+           '  TableStdin = %s\n  FlagPairs = %s\n  FlagVals = %s\n') % (
+               tset(builtins), tset(sorted(ARGS)), tset(sorted(STDIN)), tset(two), tset([c for c in INDEX_CMDS if c in builtins]),
+               tset(INDEX_SHAPES), tset(TABLE_STDIN),
+               tset(['%s %s' % (a, b) for a, b in flagpairs]), tset(FLAG_VALS))
     wd = os.path.join(ck.scratch, 'gen')
     r = common.tlc('Robust', 'Run.cfg', wd, workers=1, timeout=900, files={'Run.cfg': cfg})
     if r.violated:
@@ -131,9 +162,19 @@ def run(ck, replay=None):
     rng.shuffle(cases)
     # the index family is run completely in both tiers, the rest is sampled
     idx = [c for c in cases if c['fam'] == 'index']
-    rest = [c for c in cases if c['fam'] != 'index']
+    flg = [c for c in cases if c['fam'] == 'flag']
+    rest = [c for c in cases if c['fam'] == 'table']
     ck.cov['index_family_rows'] = len(idx)
-    cases = idx + (rest[:1500] if quick else rest[:int(os.environ.get('VERIF_C19_ROWS', '30000'))])
+    ck.cov['flag_family_rows'] = len(flg)
+    if quick:
+        # quick tier: every flag with the values negative and 5e-1 in all four argument forms, stdin alternating; the
+        # thorough tier runs the whole family
+        keep = []
+        for n, c in enumerate(sorted(flg, key=lambda c: (c['cmd'], c['args'], c['stdin']))):
+            if set(c['args']) & {'negative', 'frac-exp'} and (c['stdin'] == 'lines') == (zlib.crc32(('%s %s' % (c['cmd'], ' '.join(c['args']))).encode()) % 2 == ck.seed % 2):
+                keep.append(c)
+        flg = keep
+    cases = idx + flg + (rest[:1500] if quick else rest[:int(os.environ.get('VERIF_C19_ROWS', '30000'))])
     jobs = []
     meta = {}
     cid = 1
